@@ -97,6 +97,27 @@ func runC15(ctx *Ctx) {
 		ctx.Note("the whole 32-bit range (zero- and sign-extended) was enumerated across the shards; random 64-bit values and Skip/EncodeVarint inputs are sampled")
 	}
 
+	// 2b. groups nested around protowire's recursion limit: Skip and ConsumeField agree
+	if ctx.Shard == 0 {
+		for _, n := range []int{1, 9999, 10000, 10001, 10002, 10003, 30000} {
+			var b []byte
+			for i := 0; i < n; i++ {
+				b = protowire.AppendTag(b, protowire.Number(1+i%5), protowire.StartGroupType)
+			}
+			for i := n - 1; i >= 0; i-- {
+				b = protowire.AppendTag(b, protowire.Number(1+i%5), protowire.EndGroupType)
+			}
+			c := &Case{Sub: "skip", Bytes: hexs(b)}
+			ctx.Eval(1)
+			if err := safely(func() error { return checkC15(ctx, c) }); err != nil {
+				c.Bytes = trunc(c.Bytes, 200)
+				c.Args = map[string]string{"nested_groups": fmt.Sprint(n)}
+				ctx.Violation(c, fmt.Sprintf("%d nested groups: %v", n, err))
+				ctx.T.Fail()
+			}
+		}
+	}
+
 	// 3. rapid arms
 	ctx.CheckRapid("size64", ctx.N(1000000, 8000000)/ctx.NShards+1, func(rt *rapid.T) *Case {
 		return sovCase(modelU64(rt))
